@@ -16,6 +16,7 @@ type Clause struct {
 	Src   string
 	Expr  Expr
 	Line  int
+	Callee string // atcall clauses: name of the called function or method
 }
 
 type LoopSpec struct {
@@ -42,6 +43,7 @@ type Contract struct {
 	Trust     []string            // free-text assumptions
 	Uses      []*Clause
 	Ghost     []*Clause // ghost updates: "#res += 1"
+	AtCalls   []*Clause // "atcall[label]{props} Callee: expr": checked in the caller's scope before every call of Callee (Clause.Callee)
 	IsIface   bool
 	Pure      bool
 	Abstract  bool // contract is assumed, body not checked (listed as trusted)
@@ -71,7 +73,7 @@ type Lemma struct {
 	Line   int
 }
 
-var reClause = regexp.MustCompile(`^(requires|ensures|assumes|invariant|preserves|exit|decreases|assigns|inline|use|props|trust|check|loop|ghost|abstract|bounded|results|pure)\b(\[[^\]]*\])?\s*(\{[^}]*\})?\s*(.*)$`)
+var reClause = regexp.MustCompile(`^(requires|ensures|assumes|atcall|invariant|preserves|exit|decreases|assigns|inline|use|props|trust|check|loop|ghost|abstract|bounded|results|pure)\b(\[[^\]]*\])?\s*(\{[^}]*\})?\s*(.*)$`)
 
 func (p *Program) parseContracts(path string, overlay []byte) error {
 	var data []byte
@@ -91,7 +93,7 @@ func (p *Program) parseContracts(path string, overlay []byte) error {
 		ln   int
 	}
 	var lines []lline
-	reStart := regexp.MustCompile(`^(func|interface|spec|lemma|axiom|autolemma|autoaxiom|foldaxiom|comparable|appendlemma|ghostmap|guarded|lockinv|fieldinv|eleminv|typeinv|requires|ensures|assumes|invariant|preserves|exit|decreases|assigns|inline|use|props|trust|check|loop|ghost|abstract|bounded|results|pure)\b`)
+	reStart := regexp.MustCompile(`^(func|interface|spec|lemma|axiom|autolemma|autoaxiom|foldaxiom|comparable|stable|appendlemma|ghostmap|guarded|lockinv|fieldinv|eleminv|typeinv|requires|ensures|assumes|atcall|invariant|preserves|exit|decreases|assigns|inline|use|props|trust|check|loop|ghost|abstract|bounded|results|pure)\b`)
 	for ln, raw := range rawLines {
 		t := strings.TrimSpace(raw)
 		if !strings.HasPrefix(t, "//@") {
@@ -255,6 +257,15 @@ func (p *Program) parseContracts(path string, overlay []byte) error {
 			cur = nil
 			last = nil
 			continue
+		case strings.HasPrefix(t, "stable "):
+			// stable f, g: the value of spec function f depends only on the part of the heap reachable from its reference
+			// arguments, so a call that changes the arrays f reads at newly allocated locations only leaves it unchanged
+			for _, n := range strings.Split(t[len("stable "):], ",") {
+				p.stable[strings.TrimSpace(n)] = true
+			}
+			cur = nil
+			last = nil
+			continue
 		case strings.HasPrefix(t, "comparable "):
 			for _, n := range strings.Split(t[len("comparable "):], ",") {
 				p.comparable[strings.TrimSpace(n)] = true
@@ -365,6 +376,15 @@ func (p *Program) parseContracts(path string, overlay []byte) error {
 			last = cl
 		case "assumes":
 			cur.Assumes = append(cur.Assumes, cl)
+			last = cl
+		case "atcall":
+			i := strings.Index(rest, ":")
+			if i <= 0 {
+				return fail("atcall needs 'Callee: expr': %s", rest)
+			}
+			cl.Callee = strings.TrimSpace(rest[:i])
+			cl.Src = strings.TrimSpace(rest[i+1:])
+			cur.AtCalls = append(cur.AtCalls, cl)
 			last = cl
 		case "loop":
 			// "loop N:" optionally followed by a clause on the same line
@@ -503,6 +523,7 @@ func (p *Program) parseContracts(path string, overlay []byte) error {
 		cls = append(cls, c.Requires...)
 		cls = append(cls, c.Ensures...)
 		cls = append(cls, c.Assumes...)
+		cls = append(cls, c.AtCalls...)
 		cls = append(cls, c.Decreases...)
 		cls = append(cls, c.Uses...)
 		for _, l := range c.Loops {
@@ -684,6 +705,7 @@ func (p *Program) filterForInterference() {
 	}
 	do := func(c *Contract) {
 		c.Requires, c.Ensures, c.Assumes = filter(c.Requires), filter(c.Ensures), filter(c.Assumes)
+		c.AtCalls = filter(c.AtCalls)
 		for _, l := range c.Loops {
 			l.Invs, l.Preserves, l.Exits = filter(l.Invs), filter(l.Preserves), filter(l.Exits)
 		}
